@@ -45,12 +45,16 @@ def run(op):
             return {"ok": str(XmlDateTime(*op["v"]))}
         if k == "period":
             p = XmlPeriod(op["s"])
-            return {"ok": [p.year, p.month, p.day, p.offset], "data": p.data}
+            again = XmlPeriod(str(p))
+            return {"ok": [p.year, p.month, p.day, p.offset], "data": p.data, "str": str(p),
+                    "again_eq": again == p and str(again) == str(p)}
         if k == "duration":
             d = XmlDuration(op["s"])
             sec = d.seconds
+            again = XmlDuration(str(d))
             return {"ok": [d.negative, d.years, d.months, d.days, d.hours, d.minutes,
-                           None if sec is None else sec.hex()]}
+                           None if sec is None else sec.hex()], "str": str(d),
+                    "again_eq": again == d and str(again) == str(d)}
         if k == "time_cmp":
             a, b = XmlTime(*op["a"]), XmlTime(*op["b"])
             return {"ok": [a < b, a == b, a <= b, a > b, a >= b, a != b], "da": float(a.duration).hex(),
